@@ -10,6 +10,10 @@ the parsing discipline of the generated code).  Decoding is a total function int
 import AkdModel.Proto
 import AkdModel.Blob
 import AkdModel.Lemmas.ProtoLemmas
+import AkdModel.Lemmas.ProtoParse
+import AkdModel.Lemmas.ProtoLen
+import AkdModel.Lemmas.ProtoDecEqv
+import AkdModel.Lemmas.ProtoBlob
 namespace Akd.C19
 open Akd.Proto
 
@@ -33,32 +37,87 @@ def WFAppendOnly (p : WAppendOnly) : Prop := ∀ s ∈ p.proofs, WFSingle s
 
 /-! ## typed layer: `try_from (from x) = x` -/
 
-theorem label_roundtrip (l : WLabel) (h : WFLabel l) : decLabel (encLabel l) = some l := by sorry
-theorem element_roundtrip (e : WElement) (h : WFElement e) : decElement (encElement e) = some e := by sorry
-theorem sibling_roundtrip (s : WSibling) (h : WFSibling s) : decSibling (encSibling s) = some s := by sorry
-theorem membership_roundtrip (p : WMembership) (h : WFMembership p) : decMembership (encMembership p) = some p := by sorry
+theorem label_roundtrip (l : WLabel) (h : WFLabel l) : decLabel (encLabel l) = some l := by
+  obtain ⟨h1, h2⟩ := h
+  have hm := minimize_length_le l.val
+  have h3 : ¬ (minimize l.val).length > 32 := by omega
+  have h4 : ¬ l.len > 256 := by omega
+  simp [decLabel, encLabel, reqNum, reqBytes, PMsg.get, h3, h4, pad32_minimize l.val h1]
+
+theorem element_roundtrip (e : WElement) (h : WFElement e) : decElement (encElement e) = some e := by
+  obtain ⟨h1, h2⟩ := h
+  simp [decElement, encElement, reqMsg, reqBytes, PMsg.get, label_roundtrip _ h1, digest32, h2]
+
+theorem sibling_roundtrip (s : WSibling) (h : WFSibling s) : decSibling (encSibling s) = some s := by
+  obtain ⟨h1, h2, h3⟩ := h
+  have hd : s.direction &&& 0xF = s.direction := by
+    have : s.direction = 0 ∨ s.direction = 1 := by omega
+    rcases this with h | h <;> rw [h] <;> rfl
+  simp [decSibling, encSibling, reqMsg, reqNum, PMsg.get, label_roundtrip _ h1, msgsOf, 
+    element_roundtrip _ h2, hd, h3]
+
+theorem membership_roundtrip (p : WMembership) (h : WFMembership p) : decMembership (encMembership p) = some p := by
+  obtain ⟨h1, h2, h3⟩ := h
+  simp [decMembership, encMembership, reqMsg, reqBytes, PMsg.get, label_roundtrip _ h1, digest32, h2,
+    msgsOf_map encSibling, mapM_map_some encSibling decSibling id p.siblings (fun s hs => sibling_roundtrip s (h3 s hs))]
+
 theorem nonmembership_roundtrip (p : WNonMembership) (h : WFNonMembership p) :
-    decNonMembership (encNonMembership p) = some p := by sorry
-theorem lookup_roundtrip (p : WLookup) (h : WFLookup p) : decLookup (encLookup p) = some p := by sorry
-theorem update_roundtrip (p : WUpdate) (h : WFUpdate p) : decUpdate (encUpdate p) = some p := by sorry
-theorem history_roundtrip (p : WHistory) (h : WFHistory p) : decHistory (encHistory p) = some p := by sorry
-theorem single_roundtrip (p : WSingle) (h : WFSingle p) : decSingle (encSingle p) = some p := by sorry
-theorem appendonly_roundtrip (p : WAppendOnly) (h : WFAppendOnly p) : decAppendOnly (encAppendOnly p) = some p := by sorry
+    decNonMembership (encNonMembership p) = some p := by
+  obtain ⟨h1, h2, h3, h4, h5⟩ := h
+  simp [decNonMembership, encNonMembership, reqMsg, PMsg.get, label_roundtrip _ h1, label_roundtrip _ h2,
+    membership_roundtrip _ h5, msgsOf, element_roundtrip _ h3, element_roundtrip _ h4]
+
+theorem lookup_roundtrip (p : WLookup) (h : WFLookup p) : decLookup (encLookup p) = some p := by
+  obtain ⟨h1, h2, h3⟩ := h
+  simp [decLookup, encLookup, reqMsg, reqBytes, reqNum, PMsg.get, membership_roundtrip _ h1,
+    membership_roundtrip _ h2, nonmembership_roundtrip _ h3]
+
+
+theorem update_roundtrip (p : WUpdate) (h : WFUpdate p) : decUpdate (encUpdate p) = some p := by
+  obtain ⟨h1, h2⟩ := h
+  obtain ⟨epoch, value, version, ev, ex, pv, pp, nonce⟩ := p
+  cases pv <;> cases pp <;>
+    simp [decUpdate, encUpdate, reqMsg, reqBytes, reqNum, optBytes, PMsg.get, membership_roundtrip _ h1]
+  all_goals simp [membership_roundtrip _ (h2 _ rfl)]
+
+theorem history_roundtrip (p : WHistory) (h : WFHistory p) : decHistory (encHistory p) = some p := by
+  obtain ⟨h1, h2, h3⟩ := h
+  simp [decHistory, encHistory, PMsg.get, msgsOf_map encUpdate, msgsOf_map encMembership,
+    msgsOf_map encNonMembership, bytesOf_map,
+    mapM_map_some encUpdate decUpdate id p.updates (fun s hs => update_roundtrip s (h1 s hs)),
+    mapM_map_some encMembership decMembership id p.past (fun s hs => membership_roundtrip s (h2 s hs)),
+    mapM_map_some encNonMembership decNonMembership id p.future (fun s hs => nonmembership_roundtrip s (h3 s hs))]
+
+theorem single_roundtrip (p : WSingle) (h : WFSingle p) : decSingle (encSingle p) = some p := by
+  obtain ⟨h1, h2⟩ := h
+  simp [decSingle, encSingle, PMsg.get, msgsOf_map encElement,
+    mapM_map_some encElement decElement id p.inserted (fun s hs => element_roundtrip s (h1 s hs)),
+    mapM_map_some encElement decElement id p.unchanged (fun s hs => element_roundtrip s (h2 s hs))]
+
+theorem appendonly_roundtrip (p : WAppendOnly) (h : WFAppendOnly p) : decAppendOnly (encAppendOnly p) = some p := by
+  simp [decAppendOnly, encAppendOnly, PMsg.get, msgsOf_map encSingle, numsOf_map,
+    mapM_map_some encSingle decSingle id p.proofs (fun s hs => single_roundtrip s (h s hs))]
 
 /-- an over-long label or a wrong-size digest is rejected by the conversion, not accepted -/
 theorem label_too_long_rejected (m : PMsg) (v : Bytes) (n : Nat) (hv : m.get 1 = [.bytes v]) (hn : m.get 2 = [.num n])
-    (h : 32 < v.length ∨ 256 < n) : decLabel m = none := by sorry
+    (h : 32 < v.length ∨ 256 < n) : decLabel m = none := by
+  simp only [decLabel, reqNum, reqBytes, hv, hn]
+  rcases h with h | h
+  · simp [h]
+  · by_cases h' : v.length > 32 <;> simp [h, h']
 
 theorem digest_wrong_size_rejected (m : PMsg) (lm : PMsg) (v : Bytes) (hl : m.get 1 = [.msg lm]) (hv : m.get 2 = [.bytes v])
-    (h : v.length ≠ 32) : decElement m = none := by sorry
+    (h : v.length ≠ 32) : decElement m = none := by
+  simp only [decElement, reqMsg, reqBytes, hv, hl, digest32]
+  cases decLabel lm <;> simp [h]
 
 /-! ## wire layer -/
 
 theorem varint64_roundtrip (n : Nat) (h : n < 2 ^ 64) (rest : Bytes) :
-    readVarint64 (writeVarint n ++ rest) = some (n, rest) := by sorry
+    readVarint64 (writeVarint n ++ rest) = some (n, rest) := readVarint64_write n h rest
 
 theorem varint32_roundtrip (n : Nat) (h : n < 2 ^ 32) (rest : Bytes) :
-    readVarint32 (writeVarint n ++ rest) = some (n, rest) := by sorry
+    readVarint32 (writeVarint n ++ rest) = some (n, rest) := readVarint32_write n h rest
 
 /-- a message built by the `enc*` functions: fields with the kinds of the schema, numbers in range,
 nesting depth bounded (defined by recursion on the depth) -/
@@ -75,23 +134,207 @@ def MsgOK : Nat → MsgTy → PMsg → Prop
         | .msg sub, .msg sty => MsgOK d sty sub ∧ (writeMsgF d sty sub).length < 2 ^ 31
         | _, _ => False
 
-/-- **wire round trip**: parsing what the canonical writer wrote gives back the same fields -/
-theorem wire_roundtrip (ty : MsgTy) (m : PMsg) (h : MsgOK 12 ty m) :
-    ∃ m', parseBytes ty (writeMsg ty m) = some m' ∧ ∀ n, m'.get n = m.get n := by sorry
+/-- two parsed messages are the same up to representation: for every field number the same values in
+the same order (`ListRel`: same length, pointwise), nested messages compared the same way one level
+down.  What is abstracted is the order of the keys of the association list and the difference between
+an absent key and a key with no values — the parser never produces the latter, `enc*` does (a
+membership proof without siblings); the conversions `dec*` cannot tell the difference
+(`decLookup_eqv` …).  NOT in the statement of `wire_roundtrip` as first written, see there. -/
+def MsgEqv : Nat → PMsg → PMsg → Prop
+  | 0, _, _ => False
+  | d + 1, a, b => ∀ n, ListRel (fun x y => match x, y with
+      | .bytes p, .bytes q => p = q
+      | .num p, .num q => p = q
+      | .msg s, .msg t => MsgEqv d s t
+      | _, _ => False) (a.get n) (b.get n)
+
+theorem MsgOK_WireOK : ∀ d ty m, MsgOK d ty m → WireOK d ty m
+  | 0, _, _, h => h
+  | d + 1, ty, m, h => by
+    intro n vs hmem
+    obtain ⟨f, hf, hs, hv⟩ := h.2 n vs hmem
+    refine ⟨f, hf, hs, fun v hvm => ?_⟩
+    have hv' := hv v hvm
+    obtain ⟨num, kind, rep⟩ := f
+    cases v <;> cases kind <;> simp only [ValOKWith] at hv' ⊢ <;> try exact hv'
+    exact ⟨MsgOK_WireOK d _ _ hv'.1, hv'.2⟩
+
+theorem ListRel_imp {α β : Type} {R R' : α → β → Prop} (h : ∀ x y, R x y → R' x y) :
+    ∀ (a : List α) (b : List β), ListRel R a b → ListRel R' a b
+  | [], [], _ => trivial
+  | [], _ :: _, hr => hr.elim
+  | _ :: _, [], hr => hr.elim
+  | x :: xs, y :: ys, hr => ⟨h x y hr.1, ListRel_imp h xs ys hr.2⟩
+
+theorem MsgEqv_iff_WireEqv : ∀ d a b, MsgEqv d a b ↔ WireEqv d a b
+  | 0, _, _ => Iff.rfl
+  | d + 1, a, b => by
+    constructor
+    · intro h n
+      refine ListRel_imp (fun x y hxy => ?_) _ _ (h n)
+      cases x <;> cases y <;> simp only [ValEqvWith] at hxy ⊢ <;> try exact hxy
+      exact (MsgEqv_iff_WireEqv d _ _).mp hxy
+    · intro h n
+      refine ListRel_imp (fun x y hxy => ?_) _ _ (h n)
+      cases x <;> cases y <;> simp only [ValEqvWith] at hxy ⊢ <;> try exact hxy
+      exact (MsgEqv_iff_WireEqv d _ _).mpr hxy
+
+/-- **wire round trip**: parsing what the canonical writer wrote gives back the same fields.
+
+Two changes against the first statement, both forced (counterexamples evaluated with `#eval`):
+* the conclusion was `∀ n, m'.get n = m.get n`.  That is false as soon as a nested message is not in the
+  parser's own normal form (keys in order of appearance, no key without values): for
+  `m = [(1, [.msg [(2, [.num 5]), (1, [.bytes []])]])]` at `azksElement` the parser returns the nested
+  label as `[(1, …), (2, …)]`; and `encMembership` of a proof without siblings has the entry `(3, [])`
+  that no parsed message has.  The conclusion is now `MsgEqv 12 m' m`.
+* the hypothesis `hlen`: the top-level stream has limit `2 ^ 64` (`parseBytes`), `MsgOK` bounds nested
+  messages only; a top-level repeated field can make the encoding longer, and then the parser stops at
+  the limit and returns a prefix of the values. -/
+theorem wire_roundtrip (ty : MsgTy) (m : PMsg) (h : MsgOK 12 ty m) (hlen : (writeMsg ty m).length ≤ 2 ^ 64) :
+    ∃ m', parseBytes ty (writeMsg ty m) = some m' ∧ MsgEqv 12 m' m := by
+  obtain ⟨m', he, hp⟩ := parse_write 12 ty m 120 0 (MsgOK_WireOK 12 ty m h) (by decide) (by decide)
+  refine ⟨m', ?_, (MsgEqv_iff_WireEqv 12 m' m).mpr he⟩
+  have := hp [] (2 ^ 64) hlen (Or.inl rfl)
+  rw [List.append_nil] at this
+  unfold parseBytes writeMsg
+  rw [this]
+  rfl
+
+/-- on scalar fields `MsgEqv` is equality of the values, i.e. the conclusion of `wire_roundtrip` as first
+stated; only nested messages are compared up to representation -/
+theorem MsgEqv_get_scalar (d : Nat) (a b : PMsg) (h : MsgEqv (d + 1) a b) (n : Nat)
+    (hs : ∀ v ∈ b.get n, ∀ s, v ≠ .msg s) : a.get n = b.get n := by
+  have key : ∀ (x y : List PVal), ListRel (fun x y => match x, y with
+      | .bytes p, .bytes q => p = q
+      | .num p, .num q => p = q
+      | .msg s, .msg t => MsgEqv d s t
+      | _, _ => False) x y → (∀ v ∈ y, ∀ s, v ≠ .msg s) → x = y := by
+    intro x
+    induction x with
+    | nil => intro y hr _; cases y with
+      | nil => rfl
+      | cons _ _ => exact hr.elim
+    | cons v x ih => intro y hr hy; cases y with
+      | nil => exact hr.elim
+      | cons w y =>
+        have h1 := hr.1
+        have h2 := ih y hr.2 (fun u hu => hy u (List.mem_cons_of_mem _ hu))
+        have h3 := hy w List.mem_cons_self
+        cases v <;> cases w <;> simp only at h1
+        · rw [h1, h2]
+        · rw [h1, h2]
+        · exact absurd rfl (h3 _)
+  exact key _ _ (h n) hs
+
+/-- the conversions cannot distinguish messages that are equal up to representation -/
+theorem decLookup_eqv (d : Nat) (a b : PMsg) (h : MsgEqv d a b) : decLookup a = decLookup b :=
+  decLookup_congr d a b ((MsgEqv_iff_WireEqv d a b).mp h)
+theorem decHistory_eqv (d : Nat) (a b : PMsg) (h : MsgEqv d a b) : decHistory a = decHistory b :=
+  decHistory_congr d a b ((MsgEqv_iff_WireEqv d a b).mp h)
+theorem decAppendOnly_eqv (d : Nat) (a b : PMsg) (h : MsgEqv d a b) : decAppendOnly a = decAppendOnly b :=
+  decAppendOnly_congr d a b ((MsgEqv_iff_WireEqv d a b).mp h)
 
 /-- hence a well-formed lookup proof survives encode → bytes → parse → convert unchanged (the other
-proof types follow the same way) -/
+proof types follow the same way); no length hypothesis: all fields of a lookup proof are singular, so
+`MsgOK` bounds the whole encoding -/
 theorem lookup_bytes_roundtrip (p : WLookup) (h : WFLookup p) (hok : MsgOK 12 .lookupProof (encLookup p)) :
-    ∃ m', parseBytes .lookupProof (writeMsg .lookupProof (encLookup p)) = some m' ∧ decLookup m' = some p := by sorry
+    ∃ m', parseBytes .lookupProof (writeMsg .lookupProof (encLookup p)) = some m' ∧ decLookup m' = some p := by
+  have hlen : (writeMsg .lookupProof (encLookup p)).length ≤ 2 ^ 64 := by
+    have hb : (writeMsgF 12 .lookupProof (encLookup p)).length ≤ 10 * (2 ^ 31 + 20) :=
+      writeMsgF_length_singular 11 .lookupProof (encLookup p) (MsgOK_WireOK 12 _ _ hok) (by decide)
+    unfold writeMsg
+    omega
+  obtain ⟨m', hp, he⟩ := wire_roundtrip .lookupProof (encLookup p) hok hlen
+  exact ⟨m', hp, by rw [decLookup_eqv 12 _ _ he, lookup_roundtrip p h]⟩
 
-theorem history_bytes_roundtrip (p : WHistory) (h : WFHistory p) (hok : MsgOK 12 .historyProof (encHistory p)) :
-    ∃ m', parseBytes .historyProof (writeMsg .historyProof (encHistory p)) = some m' ∧ decHistory m' = some p := by sorry
+/-- `hlen` added: the top-level fields are repeated (see `wire_roundtrip`) -/
+theorem history_bytes_roundtrip (p : WHistory) (h : WFHistory p) (hok : MsgOK 12 .historyProof (encHistory p))
+    (hlen : (writeMsg .historyProof (encHistory p)).length ≤ 2 ^ 64) :
+    ∃ m', parseBytes .historyProof (writeMsg .historyProof (encHistory p)) = some m' ∧ decHistory m' = some p := by
+  obtain ⟨m', hp, he⟩ := wire_roundtrip .historyProof (encHistory p) hok hlen
+  exact ⟨m', hp, by rw [decHistory_eqv 12 _ _ he, history_roundtrip p h]⟩
 
-theorem appendonly_bytes_roundtrip (p : WAppendOnly) (h : WFAppendOnly p) (hok : MsgOK 12 .appendOnly (encAppendOnly p)) :
-    ∃ m', parseBytes .appendOnly (writeMsg .appendOnly (encAppendOnly p)) = some m' ∧ decAppendOnly m' = some p := by sorry
+/-- `hlen` added: the top-level fields are repeated (see `wire_roundtrip`) -/
+theorem appendonly_bytes_roundtrip (p : WAppendOnly) (h : WFAppendOnly p) (hok : MsgOK 12 .appendOnly (encAppendOnly p))
+    (hlen : (writeMsg .appendOnly (encAppendOnly p)).length ≤ 2 ^ 64) :
+    ∃ m', parseBytes .appendOnly (writeMsg .appendOnly (encAppendOnly p)) = some m' ∧ decAppendOnly m' = some p := by
+  obtain ⟨m', hp, he⟩ := wire_roundtrip .appendOnly (encAppendOnly p) hok hlen
+  exact ⟨m', hp, by rw [decAppendOnly_eqv 12 _ _ he, appendonly_roundtrip p h]⟩
+
+/-- the same as an equation on `roundtripBytes` (what the harness stream `l1.pb` observes) -/
+theorem lookup_roundtripBytes (p : WLookup) (h : WFLookup p) (hok : MsgOK 12 .lookupProof (encLookup p)) :
+    roundtripBytes .lookupProof (writeMsg .lookupProof (encLookup p)) =
+      some (some (writeMsg .lookupProof (encLookup p))) := by
+  obtain ⟨m', hp, hd⟩ := lookup_bytes_roundtrip p h hok
+  simp [roundtripBytes, hp, hd]
+
+/-! ### non-vacuity: a concrete lookup proof with one sibling level -/
+
+def exLabel : WLabel := ⟨List.replicate 31 0x11 ++ [0], 256⟩
+def exElement : WElement := ⟨exLabel, List.replicate 32 0x22⟩
+def exMembership : WMembership := ⟨exLabel, List.replicate 32 0x33, [⟨exLabel, exElement, 1⟩]⟩
+def exLookup : WLookup :=
+  { epoch := 300, value := [1, 2, 3], version := 2, existenceVrf := [9, 9], existence := exMembership,
+    markerVrf := [8], marker := exMembership, freshnessVrf := [7],
+    freshness := ⟨exLabel, exLabel, exElement, exElement, exMembership⟩, nonce := [4, 5] }
+
+/-- executable check of `MsgOK` -/
+def msgOKb : Nat → MsgTy → PMsg → Bool
+  | 0, _, _ => false
+  | d + 1, ty, m =>
+    decide (m.map (·.1) = (m.map (·.1)).eraseDups) &&
+    m.all fun e =>
+      match findSpec ty e.1 with
+      | none => false
+      | some f =>
+        (f.repeated || decide (e.2.length ≤ 1)) &&
+        e.2.all fun v =>
+          match v, f.kind with
+          | .bytes b, .bytes => decide (b.length < 2 ^ 31)
+          | .num k, .uint32 => decide (k < 2 ^ 32)
+          | .num k, .uint64 => decide (k < 2 ^ 64)
+          | .msg sub, .msg sty => msgOKb d sty sub && decide ((writeMsgF d sty sub).length < 2 ^ 31)
+          | _, _ => false
+
+theorem msgOKb_sound : ∀ d ty m, msgOKb d ty m = true → MsgOK d ty m
+  | 0, _, _, h => by simp [msgOKb] at h
+  | d + 1, ty, m, h => by
+    simp only [msgOKb, Bool.and_eq_true, decide_eq_true_eq, List.all_eq_true] at h
+    refine ⟨h.1, fun n vs hmem => ?_⟩
+    have h2 := h.2 (n, vs) hmem
+    simp only at h2
+    cases hf : findSpec ty n with
+    | none => simp [hf] at h2
+    | some f =>
+      simp only [hf, Bool.and_eq_true, Bool.or_eq_true, decide_eq_true_eq, List.all_eq_true] at h2
+      refine ⟨f, rfl, fun hr => ?_, fun v hv => ?_⟩
+      · rcases h2.1 with h3 | h3
+        · rw [hr] at h3; cases h3
+        · exact h3
+      · have h3 := h2.2 v hv
+        obtain ⟨num, kind, rep⟩ := f
+        cases v <;> cases kind <;> simp only [Bool.and_eq_true, decide_eq_true_eq, Bool.false_eq_true] at h3 ⊢
+        all_goals first | exact h3 | exact ⟨msgOKb_sound d _ _ h3.1, h3.2⟩
+
+theorem exLookup_wf : WFLookup exLookup := by
+  simp [WFLookup, WFMembership, WFNonMembership, WFSibling, WFElement, WFLabel, exLookup, exMembership,
+    exElement, exLabel]
+
+theorem exLookup_ok : MsgOK 12 .lookupProof (encLookup exLookup) := msgOKb_sound _ _ _ (by decide +kernel)
+
+example : decLookup (encLookup exLookup) = some exLookup := lookup_roundtrip _ exLookup_wf
+
+/-- `parseMsg` is defined by well-founded recursion and does not reduce by `decide`/`rfl`; the equation
+is an instance of the theorem (and is what `#eval` gives) -/
+example : roundtripBytes .lookupProof (writeMsg .lookupProof (encLookup exLookup)) =
+    some (some (writeMsg .lookupProof (encLookup exLookup))) :=
+  lookup_roundtripBytes _ exLookup_wf exLookup_ok
+
+example : (writeMsg .lookupProof (encLookup exLookup)).length = 824 := by decide +kernel
 
 /-! ## blob names -/
 theorem blobname_roundtrip (n : Blob.Name) (he : n.epoch < 2 ^ 64) (hp : n.previous.length = 32)
-    (hc : n.current.length = 32) : Blob.parse? (Blob.render n) = some n := by sorry
+    (hc : n.current.length = 32) : Blob.parse? (Blob.render n) = some n :=
+  Blob.parse_render n he hp hc
 
 end Akd.C19
